@@ -482,6 +482,17 @@ fn run_one_inner(p: &Program, tmpl: &(Image, BTreeMap<String, Vec<u8>>), prefix:
                     }
                 }
             }
+            // "nothing less": every hash the index references must have its file (independent of whether reads succeed)
+            {
+                let st = cas.read_index_state();
+                for (k, it) in st.iter() {
+                    let rel = ondisk::path_of_hash(it.blob_hash.as_bytes());
+                    if !dir.join("cas").join(&rel).exists() {
+                        findings.push((vec!["C07", "C04"], "quiescent-referenced-blob-missing".into(), format!("at quiescence key {k:?} references {} but cas/{rel} does not exist", &it.blob_hash.to_hex()[..8])));
+                        break;
+                    }
+                }
+            }
             if let Some(d) = read_fail {
                 findings.push((if has_cleanup { vec!["C04", "C05", "C08"] } else { vec!["C04", "C05"] }, "final-read-failed".into(), d));
             }
